@@ -58,6 +58,7 @@ def _scalar(v):
     return v
 
 
+EXACT_CONCRETE = True   # False: plain float semantics for concrete values (conformance runs without a solver)
 WRITE_LOG = []          # (buf.tag, flat index, old, new, site)
 _HERE = __file__.rsplit("/", 1)[0]
 
@@ -736,6 +737,8 @@ def _exact_div(a, b):
     quotient when it is exact, else an exact rational numeral"""
     from fractions import Fraction
     q = a / b
+    if not EXACT_CONCRETE:
+        return q
     fa, fb = Fraction(repr(a)), Fraction(repr(b))
     if Fraction(repr(q)) == fa / fb:
         return q
